@@ -1,0 +1,69 @@
+//go:build verif
+
+// Machine-checked contracts for package destination (comment-only file; never
+// compiled into the library).  Read by /verif/engine (gvc).
+
+package destination
+
+//@ import "github.com/go-i2p/common/keys_and_cert"
+//@ import "github.com/go-i2p/common/key_certificate"
+//@ import "github.com/go-i2p/common/certificate"
+
+// The specification's restriction for Destinations: no ML-KEM hybrid
+// encryption types (5,6,7), no RSA (4,5,6) and no Ed25519ph (8) signing types.
+//@ spec func PermittedDest(sig int, crypto int) bool {
+//@   return !(crypto == 5 || crypto == 6 || crypto == 7) && !(sig == 4 || sig == 5 || sig == 6) && sig != 8
+//@ }
+
+//@ spec func DestSig(d Destination) int { return key_certificate.SigType(d.KeysAndCert.KeyCertificate) }
+//@ spec func DestCrypto(d Destination) int { return key_certificate.CryptoType(d.KeysAndCert.KeyCertificate) }
+
+// Invariant of every Destination this library returns.
+//@ spec func DestInv(d Destination) bool { return keys_and_cert.KacInv(d.KeysAndCert) && PermittedDest(DestSig(d), DestCrypto(d)) }
+
+//@ contract ReadDestination(data []byte) (d Destination, remainder []byte, err error)
+//@   ensures @C08 fresh(d.KeysAndCert.Padding) && fresh(d.KeysAndCert.KeyCertificate.SpkType) && fresh(d.KeysAndCert.KeyCertificate.CpkType) && fresh(certificate.CertPayload(&d.KeysAndCert.KeyCertificate.Certificate)) && fresh(certificate.CertKind(&d.KeysAndCert.KeyCertificate.Certificate)) && fresh(certificate.CertLenBytes(&d.KeysAndCert.KeyCertificate.Certificate))
+//@   ensures @C08 fresh(d.KeysAndCert.ReceivingPublic.Bytes()) && fresh(d.KeysAndCert.SigningPublic.Bytes())
+//@   ensures @C01 @C03 @C09 (err == nil) == (keys_and_cert.KacAccepts(data) && PermittedDest(keys_and_cert.WireSigType(data), keys_and_cert.WireCryptoType(data)))
+//@   ensures @C03 err == nil ==> suffix(remainder, data, keys_and_cert.KacExtent(data))
+//@   ensures @C09 @C01 err == nil ==> DestInv(d)
+//@   ensures @C01 err == nil ==> seqeq(keys_and_cert.KacWire(d.KeysAndCert), data[:keys_and_cert.KacExtent(data)])
+//@   ensures @C09 err == nil ==> DestSig(d) == keys_and_cert.WireSigType(data) && DestCrypto(d) == keys_and_cert.WireCryptoType(data)
+//@   ensures err != nil ==> d.KeysAndCert == nil
+//@   modifies nothing
+
+//@ contract NewDestinationFromBytes(data []byte) (d *Destination, remainder []byte, err error)
+//@   ensures @C19 @C09 (err == nil) == (keys_and_cert.KacAccepts(data) && PermittedDest(keys_and_cert.WireSigType(data), keys_and_cert.WireCryptoType(data)))
+//@   ensures @C19 err == nil ==> suffix(remainder, data, keys_and_cert.KacExtent(data))
+//@   ensures @C19 @C09 err == nil ==> d != nil && DestInv(*d) && seqeq(keys_and_cert.KacWire(d.KeysAndCert), data[:keys_and_cert.KacExtent(data)])
+//@   ensures err != nil ==> d == nil
+//@   modifies nothing
+
+//@ contract NewDestination(keysAndCert *keys_and_cert.KeysAndCert) (d *Destination, err error)
+//@   requires keysAndCert == nil || keys_and_cert.KacInv(keysAndCert)
+//@   ensures @C09 (err == nil) == (keysAndCert != nil && PermittedDest(key_certificate.SigType(keysAndCert.KeyCertificate), key_certificate.CryptoType(keysAndCert.KeyCertificate)))
+//@   ensures @C09 err == nil ==> d != nil && d.KeysAndCert == keysAndCert
+//@   ensures err != nil ==> d == nil
+//@   modifies nothing
+
+//@ contract (d Destination) Bytes() (b []byte, err error)
+//@   requires d.KeysAndCert == nil || keys_and_cert.KacInv(d.KeysAndCert)
+//@   ensures fresh(b)
+//@   ensures (err == nil) == (d.KeysAndCert != nil)
+//@   ensures @C01 err == nil ==> seqeq(b, keys_and_cert.KacWire(d.KeysAndCert))
+//@   modifies nothing
+
+//@ lemma C01_ReadDestination(data []byte) {
+//@   d, rem, err := ReadDestination(data)
+//@   if err == nil {
+//@     b, e := d.Bytes()
+//@     assert(e == nil && seqeq(b, data[:len(data)-len(rem)]))
+//@   }
+//@ }
+
+// The policy itself does not reject any permitted, supported combination.
+//@ lemma C09_PolicyNotTooStrict(data []byte) {
+//@   _, _, e1 := keys_and_cert.ReadKeysAndCert(data)
+//@   _, _, e2 := ReadDestination(data)
+//@   assert(e1 == nil && PermittedDest(keys_and_cert.WireSigType(data), keys_and_cert.WireCryptoType(data)) ==> e2 == nil)
+//@ }
